@@ -22,18 +22,18 @@ type objInfo struct {
 
 // Env is one abstract state. Values of SSA registers of all active (inlined) frames share one map.
 type Env struct {
-	vals   map[ssa.Value]AV
-	cells  map[cellKey]AV
-	objs   map[ObjID]*objInfo
-	nilOf  map[SymID]nilness
-	shapes map[SymID][]int // restriction of shapes for a pointer-to-struct symbol; absent = any
-	tgt    map[SymID]ObjID
-	sumSym map[SymID]bool // symbol stands for several values; facts may only be weakened
-	marks  map[string]bool // path marks set by observers; joined by intersection ("on every path")
-	ver    map[cellKey]int // version of strongly updatable cells (bumped by every write)
-	pure   map[string]tri  // outcome of pure comparisons over current cell versions, learned from branches
-	marksAV map[string]AV  // values remembered by observers (kept on joins only when equal)
-	dead   bool
+	vals    map[ssa.Value]AV
+	cells   map[cellKey]AV
+	objs    map[ObjID]*objInfo
+	nilOf   map[SymID]nilness
+	shapes  map[SymID][]int // restriction of shapes for a pointer-to-struct symbol; absent = any
+	tgt     map[SymID]ObjID
+	sumSym  map[SymID]bool  // symbol stands for several values; facts may only be weakened
+	marks   map[string]bool // path marks set by observers; joined by intersection ("on every path")
+	ver     map[cellKey]int // version of strongly updatable cells (bumped by every write)
+	pure    map[string]tri  // outcome of pure comparisons over current cell versions, learned from branches
+	marksAV map[string]AV   // values remembered by observers (kept on joins only when equal)
+	dead    bool
 }
 
 func newEnv() *Env {
